@@ -28,6 +28,13 @@ CBB = "stun_rs::common::check_buffer_boundaries"
 
 
 def upper(name):
+    m = re.match(r"num::from_be_bytes\(array\((.*)\)\)$", name)
+    if m and not name.startswith("len("):
+        k = m.group(1).count(", ") + 1          # an integer assembled from k bytes
+        if k in (1, 2, 4):
+            return (1 << (8 * k)) - 1
+    if name.startswith(("BigEndian::read_u16(", "num::from_be_bytes(")) and "read_u16" in name.split("(")[0]:
+        return 65535
     if "read_u16" in name or "msg_length" in name:
         return 65535
     if name.startswith("common::padding("):
@@ -61,7 +68,15 @@ def c_raw_msg(w, e, args, suffix, variant):
     return []
 
 
-CONTRACTS = [(r"common::check_buffer_boundaries$", c_cbb), (r"RawAttribute<'\w+> as stun_rs::Decode<'\w+>>::decode$", c_raw_attr),
+def c_get(w, e, args, suffix, variant):
+    """s.get(a..b) = Some(_) => a <= b <= len(s)   (std: slice::get with a range)"""
+    if suffix == "" and variant == "Some" and len(args) == 2 and isinstance(args[1], tuple) and args[1][0] == "Range":
+        a, b = w.L.lin(args[1][1]), w.L.lin(args[1][2])
+        return [LP.add(b, a, -1), LP.add(w.L.len_lin(args[0]), b, -1)]
+    return []
+
+
+CONTRACTS = [(r"slice::<impl \[.*\]>::get(::<.*>)?$", c_get), (r"common::check_buffer_boundaries$", c_cbb), (r"RawAttribute<'\w+> as stun_rs::Decode<'\w+>>::decode$", c_raw_attr),
              (r"RawMessage<'\w+> as stun_rs::Decode<'\w+>>::decode$", c_raw_msg)]
 
 
@@ -111,8 +126,12 @@ def r3_5_iterator(ctx, prog, rule="R3.5"):
                 w.prove("contract: returned size >= 4", LP.add(w.L.lin(size), {1: -4}))
                 w.prove("contract: returned size <= len(buffer)", LP.add(w.L.len_lin("top:buffer"), w.L.lin(size), -1))
                 attr = val[1]
-                okv = isinstance(attr, tuple) and attr[0] == "RawAttribute" and LP.is_index(LP.strip(attr[2])) and LP.strip(attr[2])[1] == "top:buffer" \
-                    and LP.strip(attr[2])[2] == ("Range", 4, size)
+                vt = attr[2] if isinstance(attr, tuple) and len(attr) == 3 else None
+                if isinstance(vt, tuple) and len(vt) == 2 and vt[1] in (".some.*", ".some", ".0.*"):
+                    vt = vt[0]          # the Some payload of buffer.get(4..size)
+                vt = LP.strip(vt)
+                okv = isinstance(attr, tuple) and attr[0] == "RawAttribute" and isinstance(vt, tuple) and len(vt) == 3 and \
+                    isinstance(vt[0], str) and re.search(r"(^|::)(index|get)$", vt[0]) and vt[1] == "top:buffer" and vt[2] == ("Range", 4, size)
                 if not okv:
                     w.failed.append("value is not buffer[4..size]: %s" % show(attr)[:80])
         ctx.ob(rule, "RawAttribute::decode:%s" % ("Ok" if _ok(r) else "Err:%d" % len(pa.calls)), not w.failed,
